@@ -355,8 +355,11 @@ def case_unit(unit):
                         'call reported failure %r' % (res,))
         # --- lock released before BEGIN attempt k -----------------------
         if needs_lock and effective_retry:
-            for k in (1, 2):
-                sc = ('release', None, k)
+            slow = [('release', None, 3, 50, 31)] if (
+                kind in ('fanout', 'django')
+                and label in ('clear', 'evict')) else []
+            for sc in [('release', None, 1), ('release', None, 2)] + slow:
+                k = sc[2]
                 r = one_run(kind, settings, label, init, fn, retry, sc)
                 part['transitions'] += 1
                 part['executions'] += 1
